@@ -764,6 +764,52 @@ func prop(c Case) error {
 	if err := model.WellFormed(e); err != nil {
 		return fmt.Errorf("New%s(%v): %v", g.Kind, g.Lay(), err)
 	}
+	if c.Inject >= 0 && g.Stride() > 0 && c.BadLen > 0 {
+		// the same rejection when the coordinates are consecutive windows of one flat array
+		// (what Coords() of a long line are after slicing FlatCoords by hand): every window
+		// starts where it should, one of them is an ordinate short or long
+		stride := g.Stride()
+		for _, n := range []int{8, 12, 40} {
+			badAt := 1 + c.Inject%(n-1)
+			flat := make([]float64, n*stride+stride)
+			for i := range flat {
+				flat[i] = float64(i) + 0.5
+			}
+			line := make([]geom.Coord, n)
+			for i := range line {
+				ln := stride
+				if i == badAt {
+					ln = c.BadLen
+				}
+				if i*stride+ln > len(flat) {
+					ln = len(flat) - i*stride
+				}
+				line[i] = geom.Coord(flat[i*stride : i*stride+ln])
+			}
+			if len(line[badAt]) == stride {
+				continue
+			}
+			var errs []error
+			_, err := geom.NewLineString(g.Lay()).SetCoords(line)
+			errs = append(errs, err)
+			_, err = geom.NewLinearRing(g.Lay()).SetCoords(line)
+			errs = append(errs, err)
+			_, err = geom.NewPolygon(g.Lay()).SetCoords([][]geom.Coord{line})
+			errs = append(errs, err)
+			_, err = geom.NewMultiLineString(g.Lay()).SetCoords([][]geom.Coord{line[:2], line[2:]})
+			errs = append(errs, err)
+			_, err = geom.NewMultiPolygon(g.Lay()).SetCoords([][][]geom.Coord{{line}})
+			errs = append(errs, err)
+			_, err = geom.NewMultiPoint(g.Lay()).SetCoords(line)
+			errs = append(errs, err)
+			for k, err := range errs {
+				var sm geom.ErrStrideMismatch
+				if !errors.As(err, &sm) || sm.Got != len(line[badAt]) || sm.Want != stride {
+					return fmt.Errorf("SetCoords (type %d of LineString, LinearRing, Polygon, MultiLineString, MultiPolygon, MultiPoint) of %d coordinates that are consecutive windows of one array, window %d being %d ordinates long (stride %d): %v, want ErrStrideMismatch{Got:%d Want:%d}", k, n, badAt, len(line[badAt]), stride, err, len(line[badAt]), stride)
+				}
+			}
+		}
+	}
 	if c.Inject >= 0 {
 		sp := spoil(g, c.Inject, c.BadLen, c.BadLen2, c.BadLen3)
 		r := newEmpty(g.Kind, g.Lay())
